@@ -2,6 +2,7 @@ import WM.Lemmas.QualityTree
 import WM.Lemmas.ScoringMono
 import WM.Lemmas.ReplaceRest
 import WM.Lemmas.CoordMono
+import WM.Lemmas.KeepsWalk
 /-!
 # C12 — quality bounds are true upper bounds on scores
 
@@ -61,6 +62,20 @@ theorem skip_keeps_mem (s : Shape) (m : St s) (q : Rat) (h : WQ Pos s m) (ha : (
   have : e ∈ hi q (den s m) := mem_hi.2 ⟨he, hq⟩
   rw [← h3] at this
   exact (mem_hi.1 this).1
+
+/-- **the composition the top-N search relies on** (`collectors.py ScoredCollector.matches`: `while
+    matcher.is_active(): [matcher.skip_to_quality(minscore)]; read id/score; matcher.next()`): for *every* schedule
+    of `next()` and `skip_to_quality(q)` calls (issued while the matcher is active) whose thresholds never exceed `Q`,
+    the walk never raises, keeps the invariant, and every entry of the original result list scoring more than `Q` is
+    either **visited** (it was the current entry, with its true score, when a `next()` was issued) or still in the
+    remaining list; conversely nothing above `Q` is invented or rescored, neither among the visited entries nor among
+    the remaining ones. -/
+theorem walk_keeps (s : Shape) (m : St s) (prog : List QOp) (Q : Rat) (h : WQ Pos s m)
+    (hQ : ∀ q, QOp.skipq q ∈ prog → q ≤ Q) :
+    ∃ m' v, runW s m prog = .ok (m', v) ∧ WQ Pos s m' ∧
+      (∀ e ∈ den s m, Q < e.2 → e ∈ v ∨ e ∈ den s m') ∧
+      (∀ e ∈ v, Q < e.2 → e ∈ den s m) ∧ (∀ e ∈ den s m', Q < e.2 → e ∈ den s m) ∧ full s m' = full s m :=
+  runWith_keeps (tree_qfaithful Pos (fun _ h => h) s) Q prog m h hQ
 
 /-! ## `replace(q)` -/
 
@@ -205,6 +220,12 @@ example : WQ Pos .leaf exLeaf := ⟨exLeaf_wf, exLeaf_qdata⟩
 example : ((LeafM.ops.skipToQuality exLeaf 4).toOption.map fun r => (r.1.den, r.2)) = some ([(20, 6)], 2) ∧
     exLeaf.den = [(5, 4), (9, 2), (11, 1), (20, 6)] := by
   constructor <;> decide +kernel
+
+/-- … and the walk `next(); skip_to_quality(4); next()` (hypotheses of `walk_keeps` with `Q = 4`: `exLeaf_wf`,
+    `exLeaf_qdata`) visits (5, 4), passes over (9, 2) and (11, 1), visits (20, 6) and ends exhausted: the only entry
+    above 4 was visited -/
+example : ((runW .leaf exLeaf [.next, .skipq 4, .next]).toOption.map fun r => (r.1.den, r.2)) =
+    some ([], [(5, 4), (20, 6)]) := by decide +kernel
 
 /-- a `MultiMatcher` over two segments: `max_quality()` is the maximum over the sub-matchers that are left,
     `block_quality()` the current sub-matcher's, `replace(5/2)` passes over the first segment (its maximum is 2)
